@@ -475,6 +475,26 @@ def check_cell(case, rec):
     v = lib_verify(skd.verifying_key, sigd, msg, None, enc)
     if v != "ok":
         raise Violation("verify with the key's default hash %s: %r [%s]" % (h, v, ctx(case)))
+    # the same private key arriving through the DECODERS with hashfunc=h: its default hash is h as well (deterministic signature unchanged,
+    # and the public half it carries verifies with ITS default hash)
+    sk_loader = ("pem", "der", "string", "pem-pkcs8", "der-pkcs8")[case["seed"] % 5]
+    rec.cls("sk.loader=" + sk_loader)
+    try:
+        if sk_loader == "string":
+            skl = SigningKey.from_string(skd.to_string(), lib_curve(cname), hfun(h))
+        elif sk_loader.startswith("pem"):
+            skl = SigningKey.from_pem(skd.to_pem(format="pkcs8" if "pkcs8" in sk_loader else "ssleay"), hfun(h))
+        else:
+            skl = SigningKey.from_der(skd.to_der(format="pkcs8" if "pkcs8" in sk_loader else "ssleay"), hfun(h))
+    except Exception as e:
+        raise Violation("loading the private key via %s raised %s: %s [%s]" % (sk_loader, type(e).__name__, e, ctx(case)))
+    sigl = lib_sign("sign_deterministic (key loaded via %s, default hash)" % sk_loader, skl.sign_deterministic, msg, sigencode=se, **kw)
+    if sigl != det[0][1]:
+        raise Violation("a private key loaded via %s with hashfunc=%s signs (default hash) %s; the same key signs %s with hashfunc=%s given explicitly [%s]" % (
+            sk_loader, h, show(sigl), show(det[0][1]), h, ctx(case)))
+    v = lib_verify(skl.verifying_key, sigl, msg, None, enc)
+    if v != "ok":
+        raise Violation("the public half of a private key loaded via %s with hashfunc=%s does not verify with its default hash: %r [%s]" % (sk_loader, h, v, ctx(case)))
 
     # (a) library signatures (randomised API with a given nonce / entropy source) --------------------------
     sigs.append(("sign(k=%#x)" % k, lib_sign("sign(k=)", sk.sign, msg, hashfunc=hfun(h), sigencode=se, k=k)))
